@@ -1,6 +1,8 @@
 // C20 — black-hole detection never blocks for good nor touches unaffected addresses.
 //
-// Operation-level simulation (no instrumentation). Three strata, drawn first from the tape:
+// Four strata, drawn first from the tape (S was appended, so first draws below 23 keep their old meaning). The harness
+// is built with the full stack instrumented (props.py: FULL_STACK + QUIC_STACK): in strata B and S every goroutine of
+// the swarm is a task of the scheduler; A and X have no goroutines.
 //
 //	A "counter"    the exported swarm.BlackHoleSuccessCounter driven directly by a generated sequence of
 //	               HandleRequest / RecordResult events (N in 1..6, MinSuccesses in 0..N+1 drawn per run, a
@@ -16,6 +18,10 @@
 //	               off and on over virtual time. Fresh peers with a drawn mix of private/public, QUIC/TCP,
 //	               IPv4/IPv6 addresses are dialled with DialPeer (sequentially or overlapping in virtual time)
 //	               or asked about with CanDial; every address that reaches a transport's Dial is recorded.
+//	S "system"     system_test.go: one real dialling node (simhost: real swarm, TCP + QUIC transports, quic-go) with
+//	               small UDP / IPv6 counters, optionally a read-only swarm sharing them, 2-4 real targets on simnet;
+//	               UDP / IPv6 black holes switched on and off over virtual time; refusals judged against a set-valued
+//	               reference window computed from what was seen on the wire. Reading and oracles: see that file.
 //
 // Reading of the statement used by the oracles (weaker reading wherever it is ambiguous):
 //   - "full observation window": N recorded outcomes since the last clearing. State() is Probing before that,
@@ -48,7 +54,8 @@
 // Sensitivity. Each mutation below was applied alone to a copy of /repo/p2p/net/swarm/black_hole_detector.go (BH)
 // or swarm_dial.go (SD) through `go test -c -overlay`, run on 4 workers; every one was reported within 1-9 s
 // (5-110 runs), none on the unchanged tree (43 000 runs, 3 of 6 workers with VERIF_SELFTEST=1; ./check selftest
-// identical over GOMAXPROCS 1/4/16/2). Classes listed are the ones that fired first.
+// identical over GOMAXPROCS 1/4/16/2). Classes listed are the ones that fired first. (These runs predate the
+// instrumented build; the stub transports now block only at simrt yield points.)
 //
 //	M1  BH HandleRequest never probes (`|| b.requests%b.N == 0` dropped)   counter/no-probe-within-window, no-probe-within-window/{udp,ipv6},
 //	                                                                        liveness/no-success-within-window/{udp,ipv6}
@@ -72,6 +79,27 @@
 //	M17 BH private addresses count as requests (use up probe slots)         no-probe-within-window/{udp,ipv6}
 //	M18 SD RecordResult inverted (`err != nil`)                             refused-without-full-bad-window/udp, swarm/state-mismatch/...
 //	M19 BH dials of private addresses recorded                              refused-without-full-bad-window/{udp,ipv6}, swarm/state-mismatch/...
+//
+// Stratum S alone (C20_ONLY=system, private overlay of the instrumented tree, 4 workers, first catch after 7-40 s):
+//
+//	S1  SD RecordResult inverted (`err != nil`)                 system/state-mismatch/udp/got-{Allowed,Blocked,Probing}
+//	S2  SD RecordResult skipped for successes                   system/state-mismatch/udp/got-{Blocked,Probing}
+//	S3  SD FilterAddrs result ignored                           system/read-only/passed-without-known-good/{udp,ipv6} (read-only swarm only;
+//	                                                            in read/write mode dialling a black-holed address is not a violation)
+//	S4  SD RecordResult skipped for failures                    system/state-mismatch/udp/got-Probing
+//	S5  BH never probes                                         system/no-probe-within-window/{udp,ipv6}, system/liveness/no-success-after-heal/{udp,ipv6}
+//	S6  BH reset on success removed                             system/state-mismatch/udp/got-{Allowed,Blocked}
+//	S7  BH private addresses filtered                           system/unaffected-address-refused/private
+//	S8  BH read-only lets unknown state through                 system/read-only/passed-without-known-good/{udp,ipv6}
+//	S9  BH read-only RecordResult updates state                 system/state-mismatch/{udp,ipv6}/got-* (after the read-only swarm's turn)
+//	S10 BH UDP detector also removes TCP addresses              system/unaffected-address-refused/other-kind, system/read-only/refused-although-known-good/ipv6
+//	seeded C20-1 (ring buffer not rewound)                      system/state-mismatch/{udp,ipv6}/got-Blocked
+//	seeded C20-2 (private-only requests use up probe slots)     system/no-probe-within-window/{udp,ipv6}
+//	seeded C20b-1 (read-only detector calls HandleRequest)      system/no-probe-within-window/{udp,ipv6}
+//	seeded C20b-2 (successes skipped while Allowed)             system/state-mismatch/ipv6/got-Blocked
+//
+// C20_ONLY=<counter|swarm|exhaustive|system> (never set by ./check) makes every other stratum return at once; it exists
+// for these per-stratum sensitivity runs.
 //
 // Not detectable by construction (not statement violations): detectors that block less than documented only in the
 // request path (a request let through is never a violation in read/write mode), a different position of the probe
